@@ -154,6 +154,12 @@ func (t *RecTransport) faultFor(kind string) error {
 }
 
 func (t *RecTransport) write(kind string, bufs [][]byte) (int64, error) {
+	entryArmed := false
+	if t.HonourDeadlines {
+		t.mu.Lock()
+		entryArmed = !t.wdl.IsZero()
+		t.mu.Unlock()
+	}
 	if cb := t.OnOp; cb != nil {
 		cb(kind, 0)
 	}
@@ -180,6 +186,24 @@ func (t *RecTransport) write(kind string, bufs [][]byte) (int64, error) {
 	for _, b := range bufs {
 		data = append(data, b...)
 		op.PartLens = append(op.PartLens, len(b))
+	}
+	if _, dl := err.(errWriteDeadline); dl && !entryArmed && len(data) > 1 {
+		// the deadline was armed (and ran out) while this write was already in progress - what a connection does then:
+		// part of the data has been taken, the call reports the rest as timed out
+		half := len(data) / 2
+		op.Data, op.Err, op.AfterClose, op.Start = data[:half], err, t.closed, len(t.wire)
+		op.Rejected = false
+		op.PartLens = []int{half}
+		t.wire = append(t.wire, data[:half]...)
+		t.unflushed += half
+		op.Out = Tick()
+		t.ops = append(t.ops, op)
+		t.mu.Unlock()
+		atomic.AddInt32(&t.inWrite, -1)
+		if cb := t.OnOp; cb != nil {
+			cb(kind, 1)
+		}
+		return int64(half), err
 	}
 	op.Data = data
 	op.Err = err
